@@ -34,6 +34,7 @@ def run(cx):
     prog = cx.prog
 
     with cx.ob("C09.1", "R-FLOW", "explicit disconnect removes+closes+announces LostPeer(Requested) under the lock; RPCs use only the live map") as ob:
+        check_api_forwarder(ob, prog, "disconnect")          # Network::disconnect(peer) = NetworkInner::disconnect(peer)
         b = cx.body(f"{NI}::disconnect")
         o = Origins(b)
         rm = b.calls_to(f"{CM}::ActivePeers::remove")
